@@ -887,8 +887,12 @@ def run(tier="quick", seed=0, budget_s=60.0, jobs=1):
                  "the latest observation at or before t is empty in the file; instants before the first "
                  "observation are checked only by no-bar-before-t-gives-nan. cache-transparent = warm re-queries "
                  "and interleaved two-asset queries reproduce the cold answers, and two live sources on the same "
-                 "directory with different adjust flags each answer like a lone source of their own flag. Every "
-                 "failure case carries unit.base (absent in old cases = 2020-01-02)."),
+                 "directory with different adjust flags each answer like a lone source of their own flag; a FRESH "
+                 "source whose first pass is descending, and a source that first answered the same instants written "
+                 "in New York / Tokyo time, reproduce the ascending cold pass. instant-not-wall-clock = every third "
+                 "instant asked in those two zones gives the UTC answer. Units of 3+ bars are also run on a twin "
+                 "file with REPEATED prices (opens 100/101, closes 102/103 alternating) under the value clauses. "
+                 "Every failure case carries unit.base (absent in old cases = 2020-01-02)."),
         "samples": total.samples,
         "exhaustive": bool(exhaustive),
         "clauses": total.clauses,
